@@ -99,7 +99,14 @@ Build(d, inh) ==
       inherited == SelectSeq(inh.gargs, LAMBDA g : g.id \notin ownIds)
       helpArgs == IF S("disable_help_flag") THEN <<>> ELSE <<HelpArg>>
       verArgs == IF S("disable_version_flag") \/ ~hasVersion THEN <<>> ELSE <<VersionArg>>
-      args == AssignIdx(own \o inherited \o helpArgs \o verArgs, 1)
+      args0 == AssignIdx(own \o inherited \o helpArgs \o verArgs, 1)
+      \* the command-level allow_hyphen_values / allow_negative_numbers / trailing_var_arg are copied onto the arguments:
+      \* the first two onto every argument that takes values, the last onto the positional with the highest index
+      highestIdx == LET idxs == {args0[i].idx : i \in {j \in 1..Len(args0) : args0[j].positional}} \cup {0} IN CHOOSE h \in idxs : \A k \in idxs : k <= h
+      args == [i \in 1..Len(args0) |->
+                 [args0[i] EXCEPT !.hyphen = @ \/ (d.s.allow_hyphen_values /\ args0[i].nmax # 0),
+                                  !.negnum = @ \/ (d.s.allow_negative_numbers /\ args0[i].nmax # 0),
+                                  !.tva = @ \/ (d.s.trailing_var_arg /\ args0[i].positional /\ args0[i].idx = highestIdx)]]
   IN [name |-> d.name, aliases |-> d.aliases, short_flag |-> d.short_flag, long_flag |-> d.long_flag,
       long_flag_aliases |-> d.long_flag_aliases, short_flag_aliases |-> d.short_flag_aliases, hide |-> d.hide, about |-> d.about,
       s |-> [n \in DOMAIN d.s |-> S(n)] @@ [eff_disable_help_subcommand |-> disHelpSub],
